@@ -393,6 +393,9 @@ impl TargetApi for Poisonable<RetryingLockCollection<&'static CML>> {
     poison_api_write!(RetryingLockCollection<&'static CML>);
     poison_api_read!(RetryingLockCollection<&'static CML>);
 }
+coll_api!(BoxedLockCollection<MR>, MR);
+coll_api!(RetryingLockCollection<MR>, MR);
+coll_api!(RefLockCollection<'static, MR>, MR);
 impl TargetApi for Poisonable<Unit> {
     poison_api_write!(Unit);
     poison_api_read!(Unit);
